@@ -37,19 +37,26 @@ def sh(cmd, cwd=None, env=None, timeout=None, check=True, stdin=None):
 
 
 _built = {}
+import threading
+_build_lock = threading.Lock()
 
 
 def build_harness(race=False):
     """(Re)build the Go harness against /repo's working tree with the verif tag."""
     key = "vh-race" if race else "vh"
+    if os.path.realpath(REPO) != "/repo":
+        # a scratch tree gets its own binary so that it cannot disturb concurrent runs against /repo
+        key += "-" + hashlib.sha1(os.path.realpath(REPO).encode()).hexdigest()[:8]
+    with _build_lock:
+        return _build_locked(key, race)
+
+
+def _build_locked(key, race):
     if key in _built:
         return _built[key]
     os.makedirs(BUILD, exist_ok=True)
     gosum = os.path.join(HARNESS, "go.sum")
     shutil.copyfile(os.path.join(REPO, "go.sum"), gosum)
-    if os.path.realpath(REPO) != "/repo":
-        # a scratch tree gets its own binary so that it cannot disturb concurrent runs against /repo
-        key += "-" + hashlib.sha1(os.path.realpath(REPO).encode()).hexdigest()[:8]
     out = os.path.join(BUILD, key)
     cmd = ["go", "build", "-tags", "verif", "-o", out]
     if os.path.realpath(REPO) != "/repo":
